@@ -359,6 +359,11 @@ add("C15", "X-true-copy-decider-kept", "fixed",
      "vals": [{"in1": 12}, {"in1": 3}], "optimize": True, "sched": {"seed": 0}, "opts": {}}, commit="a1251ad")
 
 
+add("C18", "X-pole-neighbour-slots", "fixed",
+    "--power-poles substation: medium relay poles out of their own reach used up a substation's five neighbour slots, the next substation 18 tiles away stayed unconnected (two electric networks)",
+    ser.dec(json.load(open(os.path.join(ROOT, "tools", "cases", "C18-pole-neighbour-slots.json")))), commit="c5a7c30")
+
+
 def main():
     import importlib
 
